@@ -39,6 +39,9 @@ class World:
         self.ete = fb.find(INTERP + "eval_tail_expression")
         self.ap = fb.find(INTERP + "apply_procedure")
         self.asp = fb.find(INTERP + "apply_scheme_procedure")
+        if not getattr(self.asp, "missing", False) and self.asp.arg_count != 5:
+            # same name, another signature: it cannot be stubbed with the pinned argument layout — follow it like any helper
+            self.asp = mir.MissingFunc(INTERP + "apply_scheme_procedure")
         self.epc = fb.find(INTERP + "eval_procedure_call")
         self.nloc = 0
 
